@@ -22,7 +22,8 @@ func init() {
 	register(&RuleSet{
 		ID:      "C18",
 		Arch386: true,
-		Explanation: "Layouts are extracted from the typed AST of ovmf/abi, sev, tdx and eventlog: for every function and every []byte parameter / local byte array, the constant ranges written and read (binary Put/Get primitives, copy, indexed stores, constant fill loops, delegation of a constant sub-slice to a callee with its own table, range-writer helpers taking (out, lo, hi)). " +
+		Explanation: "R14 a field that travels with its size is cut out by that size: no decoding function of eventlog / ovmf/abi (reads an io.Reader or []byte, can fail) delimits a value by a content search (Index*, LastIndex*, Cut*, Split*, Trim*, Fields* of bytes/strings). " +
+			"Layouts are extracted from the typed AST of ovmf/abi, sev, tdx and eventlog: for every function and every []byte parameter / local byte array, the constant ranges written and read (binary Put/Get primitives, copy, indexed stores, constant fill loops, delegation of a constant sub-slice to a callee with its own table, range-writer helpers taking (out, lo, hi)). " +
 			"R1 tiling and width: in every writer the ranges are pairwise disjoint; each range is as long as the primitive is wide; for a []byte parameter they tile [0, K) contiguously where K is the function's own length guard (for zero-initialised local arrays gaps are zero bytes and allowed). " +
 			"R2 reader/writer agreement: for every struct type with both a constant-layout writer and reader, range ↦ field is the same map in both. " +
 			"R3 refusal: every function with constant accesses to a []byte parameter has a length guard covering its largest bound (unexported functions: every call site passes a constant-width slice of sufficient width); narrowing integer conversions in writers are preceded by a range check of the source that returns an error. " +
@@ -45,6 +46,7 @@ func init() {
 var c18Pkgs = []string{"ovmf/abi", "sev", "tdx", "eventlog"}
 
 func runC18(c *Ctx) {
+	defer c18SizedNotSearched(c)
 	var pkgs []*packages.Package
 	byPath := map[string]*packages.Package{}
 	for _, r := range c.P.Roots {
@@ -1708,4 +1710,64 @@ func inMemoryReader(v ssa.Value) bool {
 		return true
 	}
 	return false
+}
+
+// c18SizedNotSearched is R14: a field that travels with its size is cut out by that size. The encoders write field
+// contents verbatim, so a decoder that delimits a value by searching its content (Index*/LastIndex*/Cut/Split/Trim*/
+// Fields of bytes and strings) drops or keeps bytes the encoder wrote: decode(encode(x)) ≠ x for every x containing the
+// delimiter. In the stream codec packages no decoding function (one that reads from an io.Reader or a byte slice and
+// can fail) calls one of these. The expected count on the tree is zero: canary mutant C18-decoder-trims-content.
+func c18SizedNotSearched(c *Ctx) {
+	isReaderOrBytes := func(t types.Type) bool {
+		if t.String() == "[]byte" || t.String() == "io.Reader" {
+			return true
+		}
+		return false
+	}
+	search := func(call ssa.CallInstruction) (string, bool) {
+		if n, ok := isSentinelSearch(call); ok {
+			return n, true
+		}
+		f := call.Common().StaticCallee()
+		if f == nil || f.Pkg == nil {
+			return "", false
+		}
+		switch f.Pkg.Pkg.Path() {
+		case "bytes", "strings":
+			n := f.Name()
+			for _, p := range []string{"Cut", "Split", "Trim", "Fields"} {
+				if strings.HasPrefix(n, p) {
+					return f.Pkg.Pkg.Name() + "." + n, true
+				}
+			}
+		}
+		return "", false
+	}
+	nDec, nBad := 0, 0
+	for _, f := range c.P.RepoFunctions() {
+		rel := load.RelPkg(f)
+		if (rel != "eventlog" && rel != "ovmf/abi") || c.isTestFunc(f) || f.Blocks == nil || errIndex(f.Signature) < 0 {
+			continue
+		}
+		dec := false
+		for i, p := range f.Params {
+			if i == 0 && f.Signature.Recv() != nil {
+				continue
+			}
+			dec = dec || isReaderOrBytes(p.Type())
+		}
+		if !dec {
+			continue
+		}
+		nDec++
+		for _, call := range callsIn(f, func(call ssa.CallInstruction) bool { _, ok := search(call); return ok }) {
+			n, _ := search(call)
+			nBad++
+			c.S.Bad("R14", load.FuncName(f)+":content search "+n, c.pos(call.Pos()), "a decoder delimits a value by searching its content ("+n+"): the encoder writes the field verbatim with its size, so a value that contains the delimiter does not decode to what was encoded")
+		}
+	}
+	c.S.Floor("R14", "decoding functions of the stream codec packages", 10, nDec)
+	if nBad == 0 {
+		c.S.OK("R14", "eventlog, ovmf/abi:sized fields are cut by size", "", fmt.Sprintf("no content search in %d decoding functions", nDec), true)
+	}
 }
